@@ -104,7 +104,7 @@ func init() {
 	mon.Register(&mon.Check{
 		ID:               "C01",
 		CrashIsViolation: true,
-		Rule: "evaluations = Lint*Ex calls monitored (object x registry); distinct_nontrivial = distinct accepted input objects (corpus seeds + parser-accepted structure-aware DER mutants, de-duplicated by case index) on which at least one lint left NA. Each call is judged online: returned normally, key set == names of the matching kind found by ByName over Names(), non-nil results, metadata equal to the registry's, status in 1..7, four *Present flags == OR over results, Version == major version in go.mod.",
+		Rule: "evaluations = Lint*Ex calls monitored (object x registry); distinct_nontrivial (de-duplicated by a hash of the DER bytes within each worker process) = distinct accepted input objects (corpus seeds + parser-accepted structure-aware DER mutants, de-duplicated by case index) on which at least one lint left NA. Each call is judged online: returned normally, key set == names of the matching kind found by ByName over Names(), non-nil results, metadata equal to the registry's, status in 1..7, four *Present flags == OR over results, Version == major version in go.mod.",
 		Assumptions: []string{"inputs the zcrypto / x-crypto parsers reject or panic on are outside the quantifier", "no-hang is observed as 'no worker stall beyond the watchdog, reproduced in isolation'"},
 		Setup: func(c *mon.Ctx) error {
 			if err := setupCommon(c); err != nil {
@@ -142,7 +142,7 @@ func init() {
 					}
 				}
 				if nt {
-					c.R.Count("distinct_nontrivial", 1)
+					c.CountDistinct(o.DER)
 				}
 				if i%200 == 0 {
 					c.R.Sample(6, map[string]any{"kind": o.Kind.String(), "seed": o.Name, "der_prefix": mon.HexPrefix(o.DER, 24), "registries": len(c01Regs)})
@@ -161,7 +161,7 @@ func init() {
 			c01Judge(c, o, c01Regs[2+rng.Intn(len(c01Regs)-2)])
 			for _, sd := range s {
 				if sd.Status > int(lint.NA) {
-					c.R.Count("distinct_nontrivial", 1)
+					c.CountDistinct(o.DER)
 					break
 				}
 			}
